@@ -136,11 +136,13 @@ where
             self.position += self.block.size();
 
             if self.block.data().len() > 0 {
-                break;
+                return Ok(self.block.data().len());
             }
         }
 
-        Ok(self.block.data().len())
+        // End of stream: no block was read. The previous (exhausted) block is left in place, so
+        // its length must not be reported as newly read data.
+        Ok(0)
     }
 
     fn read_block(&mut self) -> io::Result<usize> {
